@@ -1,5 +1,5 @@
 #!/bin/bash
-# usage: seed_confirm.sh <seed-name> <property> <worktree> [demo test args]
+# usage: [DEMO_CMD="cmd run from the worktree root"] seed_confirm.sh <seed-name> <property> <worktree> [demo test args]
 # Confirms a seeded change independently of the sub-agent that produced it:
 #  1. with the change: the repository's suite passes, the demonstration fails
 #  2. without the change: the demonstration passes
@@ -15,10 +15,14 @@ cd "$WT" || exit 2
 echo "== suite with change" | tee -a "$LOG"
 (cargo nextest run --workspace --no-fail-fast --offline --test-threads 8 2>&1 | grep -E "Summary|FAIL" | head -20) | tee -a "$LOG"
 echo "== demo with change (expected to fail)" | tee -a "$LOG"
-(cd seed_demo && CARGO_TARGET_DIR=$WT/target cargo test --offline "$@" 2>&1 | grep -E "^test |test result" | head -40) | tee -a "$LOG"
+demo() {
+  if [ -n "${DEMO_CMD:-}" ]; then (cd "$WT" && CARGO_TARGET_DIR=$WT/target bash -c "$DEMO_CMD" 2>&1 | grep -E "^test |test result|PANIC|FAILED|failed:" | head -40)
+  else (cd seed_demo && CARGO_TARGET_DIR=$WT/target cargo test --offline "$@" 2>&1 | grep -E "^test |test result" | head -40); fi
+}
+demo "$@" | tee -a "$LOG"
 git stash push -- crates >/dev/null 2>&1
 echo "== demo without change (expected to pass)" | tee -a "$LOG"
-(cd seed_demo && CARGO_TARGET_DIR=$WT/target cargo test --offline "$@" 2>&1 | grep -E "^test |test result" | head -40) | tee -a "$LOG"
+demo "$@" | tee -a "$LOG"
 git stash pop >/dev/null 2>&1
 git diff -- crates > "$OUT/patch.diff"
 mkdir -p "$OUT/demo"
